@@ -39,6 +39,17 @@ SetRel(s, g, r, T) ==
       new == IF T = {} THEN Del(old, r) ELSE Put(old, r, T)
   IN [s EXCEPT !.facts = Put(s.facts, g, new)]
 
+\* condition of a conditional delete / update: column `col` (1-based) compared
+\* with the token `val` by equality or inequality
+Matching(op, R) == { t \in R : IF op.op = "=" THEN t[op.col] = op.val ELSE t[op.col] # op.val }
+
+\* what a write reports (C32): tuples that were absent / present / matched
+Reported(op, s) ==
+  CASE op.k = "ins"  -> Cardinality(ToSetS(op.tuples) \ Rel(s, op.kg, op.rel))
+    [] op.k = "del"  -> Cardinality(ToSetS(op.tuples) \cap Rel(s, op.kg, op.rel))
+    [] op.k \in { "cdel", "upd" } -> Cardinality(Matching(op, Rel(s, op.kg, op.rel)))
+    [] OTHER -> 0
+
 Maintenance == { "save", "compact", "save_all", "flush" }
 Restarts    == { "restart", "restart_nosave" }
 
@@ -47,6 +58,13 @@ Apply(op, s) ==
   CASE op.k = "ins"  -> SetRel(s, op.kg, op.rel, Rel(s, op.kg, op.rel) \cup ToSetS(op.tuples))
     [] op.k = "del"  -> SetRel(s, op.kg, op.rel, Rel(s, op.kg, op.rel) \ ToSetS(op.tuples))
     [] op.k = "droprel" -> SetRel(s, op.kg, op.rel, {})
+    \* conditional delete: remove exactly the tuples matching the condition
+    [] op.k = "cdel" -> SetRel(s, op.kg, op.rel, Rel(s, op.kg, op.rel) \ Matching(op, Rel(s, op.kg, op.rel)))
+    \* update: delete the matching tuples, insert their images (column setcol := setval)
+    [] op.k = "upd"  -> LET R == Rel(s, op.kg, op.rel)
+                            D == Matching(op, R)
+                            I == { [t EXCEPT ![op.setcol] = op.setval] : t \in D }
+                        IN SetRel(s, op.kg, op.rel, (R \ D) \cup I)
     [] op.k = "create" -> [s EXCEPT !.kgs = @ \cup { op.kg }, !.facts = Put(@, op.kg, EmptyMap),
                                     !.rules = Put(@, op.kg, EmptyMap), !.schemas = Put(@, op.kg, EmptyMap)]
     [] op.k = "drop"   -> [s EXCEPT !.kgs = @ \ { op.kg }, !.facts = Del(@, op.kg),
